@@ -303,8 +303,18 @@ def check_frame(case):
                 untouched.discard(j)
                 exp_dt[j] = None
         classes.append('bloc-value:' + bv)
-        key = mask if route != 'loc' else sf.Frame(mask, index=f.index, columns=f.columns)
-        r = lib(lambda: f.assign.bloc[key](v))
+        # the key is the caller's own writeable array: the interface may not change it, and applying the same delegate a second
+        # time addresses the same cells
+        mask_w = np.array(mask, dtype=bool)
+        key = mask_w if route != 'loc' else sf.Frame(mask, index=f.index, columns=f.columns)
+        delegate = f.assign.bloc[key]
+        r = lib(lambda: delegate(v))
+        if not isinstance(r, Raised):
+            if not np.array_equal(mask_w, mask):
+                raise Failure('key-mutated', 'assign.bloc[key](%s value) changed the Boolean key array it was given: %s -> %s' % (bv, mask.tolist(), mask_w.tolist()))
+            r_again = lib(lambda: delegate(v))
+            if isinstance(r_again, Raised) or obs.snap(r_again) != obs.snap(r):
+                raise Failure('key-mutated', 'assign.bloc[key](%s value) applied twice gives two results: %s then %s' % (bv, short(obs.snap(r), 200), short(r_again if isinstance(r_again, Raised) else obs.snap(r_again), 200)))
     elif iface in ('drop', 'mask', 'masked_array'):
         rp, rs, cp, cs = sel(case['rk'], case['ck'])
         if route == 'getitem':
